@@ -89,12 +89,10 @@ Fixpoint validate (fixed_name : bool) (seen : list pnet) (l : list pnet) : vres 
   end.
 
 Definition fill_defaults (i : inp) (n : pnet) : pnet :=
-  if is_eth0 n then
-    {| w_iflen := w_iflen n; w_ifid := w_ifid n;
-       w_nvsw := if w_nvsw n =? 0 then i_cfg_nvsw i else w_nvsw n;
-       w_nsg := if w_nsg n =? 0 then i_cfg_nsg i else w_nsg n;
-       w_alloc := w_alloc n; w_attach_eni := w_attach_eni n |}
-  else n.
+  {| w_iflen := w_iflen n; w_ifid := w_ifid n;
+     w_nvsw := if w_nvsw n =? 0 then i_cfg_nvsw i else w_nvsw n;
+     w_nsg := if w_nsg n =? 0 then i_cfg_nsg i else w_nsg n;
+     w_alloc := w_alloc n; w_attach_eni := w_attach_eni n |}.
 
 Definition finish (i : inp) (nets : list pnet) (vzone : list Z) : verdict :=
   match validate (i_fixed_name i) [] nets with
@@ -127,7 +125,7 @@ Definition pod_webhook (i : inp) : verdict :=
         if i_has_req i && negb (i_req_ok i) then Denied
         else
           match (if i_has_req i then i_reqs i else []) with
-          | _ :: _ as qs =>
+          | (_ :: _) as qs =>
               match requests true [] qs with
               | None => Denied
               | Some (ns, z) => finish i ns z
